@@ -386,63 +386,65 @@ theorem C29_prefix_invisible {s s' : Lsm} {ps : List Bytes} {flushIds : List Nat
 /-! ## sanity: a concrete run (memtable + immutable + L0 + a deeper level, two prefixed tables
 forming one group, one of them skipped by `keepTable`) -/
 
-section Sanity
+namespace C29Sample
 
-private def mk (k : List Nat) (v : Nat) : Ent :=
+def mk (k : List Nat) (v : Nat) : Ent :=
   { key := k.map UInt8.ofNat, ver := v, emeta := 0, umeta := 0, exp := 0, val := [] }
 
-private def deep : List Tbl :=
+def deep : List Tbl :=
   [{ ents := [mk [1] 1, mk [1, 5] 1], id := 1 }, { ents := [mk [2] 1, mk [2, 0] 1], id := 2 },
    { ents := [mk [2, 1] 1, mk [3] 1], id := 3 }, { ents := [mk [4] 1, mk [5] 1], id := 4 },
    { ents := [mk [8] 1, mk [9] 1], id := 6 }]
 
-private def s0 : Lsm :=
+def s0 : Lsm :=
   { mem := [mk [2, 1] 9], imm := [[mk [1] 3]], levels := [[{ ents := [mk [1] 2, mk [5] 2], id := 10 }], [], deep] }
 
-private def sF : Lsm :=
+def sF : Lsm :=
   { mem := [], imm := [], levels := [[{ ents := [mk [1] 2, mk [5] 2], id := 10 }, { ents := [mk [1] 3], id := 20 },
       { ents := [mk [2, 1] 9], id := 21 }], [], deep] }
 
-private def sA : Lsm :=
+def sA : Lsm :=
   { sF with levels := [[{ ents := [mk [1] 2, mk [5] 2], id := 10 }, { ents := [mk [1] 3], id := 20 },
       { ents := [mk [2, 1] 9], id := 21 }], [],
     [{ ents := [mk [1] 1, mk [1, 5] 1], id := 1 }, { ents := [mk [3] 1], id := 30 },
      { ents := [mk [4] 1, mk [5] 1], id := 4 }, { ents := [mk [8] 1, mk [9] 1], id := 6 }]] }
 
-private def sEnd : Lsm :=
+def sEnd : Lsm :=
   { mem := [], imm := [], levels := [[], [],
     [{ ents := [mk [1] 3, mk [1] 2, mk [1] 1, mk [1, 5] 1, mk [3] 1], id := 31 },
      { ents := [mk [4] 1, mk [5] 2, mk [5] 1], id := 32 }, { ents := [mk [8] 1, mk [9] 1], id := 6 }]] }
 
-private def st1 : DropStep := { outSizes := [1], outIds := [30], discardTs := 0, now := 0 }
-private def st2 : DropStep := { outSizes := [5, 3], outIds := [31, 32], discardTs := 0, now := 0 }
+def st1 : DropStep := { outSizes := [1], outIds := [30], discardTs := 0, now := 0 }
+def st2 : DropStep := { outSizes := [5, 3], outIds := [31, 32], discardTs := 0, now := 0 }
 
 example : LsmInv s0 ∧ VerBound s0 ∧ 0 < s0.levels.length := by decide
 example : (s0.flushAll [20, 21]).dropPlan [[2]] = [(2, [[2, 3]])] := by decide
 
-private theorem e1 : s0.flushAll [20, 21] = sF := by decide
-private theorem e2 : dropLevels sF = [2, 1] := by decide
-private theorem e3 : sF.dropLevelRun 2 [[2]] 1 [st1, st2] = some (sA, [st2]) := by
+theorem e1 : s0.flushAll [20, 21] = sF := by decide
+theorem e2 : dropLevels sF = [2, 1] := by decide
+theorem e3 : sF.dropLevelRun 2 [[2]] 1 [st1, st2] = some (sA, [st2]) := by
   have hg : (dropGroups (sF.levels.getD 2 []) [[2]]).map (fun g => pickIdx (sF.levels.getD 2 []) g) =
       [[{ ents := [mk [2] 1, mk [2, 0] 1], id := 2 }, { ents := [mk [2, 1] 1, mk [3] 1], id := 3 }]] := by
     decide
   simp only [Lsm.dropLevelRun, hg, Lsm.dropGroupsRun, Lsm.dropGroupStep, Lsm.compact, compactOutput,
     mergeAll_eq_F]
   decide
-private theorem e4 : sA.dropLevelRun 1 [[2]] 1 [st2] = some (sA, [st2]) := by decide
-private theorem e5 : sA.dropL0Run [[2]] 2 1 [st2] = some (sEnd, []) := by
+theorem e4 : sA.dropLevelRun 1 [[2]] 1 [st2] = some (sA, [st2]) := by decide
+theorem e5 : sA.dropL0Run [[2]] 2 1 [st2] = some (sEnd, []) := by
   simp only [Lsm.dropL0Run, Lsm.compact, compactOutput, mergeAll_eq_F]
   decide
 
+end C29Sample
+
+open C29Sample in
 /-- the run on the sample state: the memtable entry `[2,1]@9`, the all-prefix table #2 (skipped by
     `keepTable`) and the prefixed half of table #3 disappear, everything else stays -/
 theorem C29_sample_run : s0.dropPrefixRun [[2]] [20, 21] 2 1 [st1, st2] = some sEnd := by
   simp only [Lsm.dropPrefixRun, e1, e2, Lsm.dropLevelsRun, e3, e4, e5]
   decide
 
+open C29Sample in
 example : ∀ e ∈ sEnd.allEntries, hasAnyPrefix e.key [[2]] = false :=
   C29_prefix_gone (by decide) (by decide) (by decide) C29_sample_run
-
-end Sanity
 
 end Badger
